@@ -5,6 +5,7 @@
   for whole function items (`inferFn_sound`).
 -/
 import RotoV.Lemmas.TcInferSound
+import RotoV.Lemmas.TcInferMethod
 
 namespace RotoV.TcInfer
 open RotoV.Typing RotoV.Unify RotoV.Gen
@@ -419,8 +420,26 @@ theorem soundE (env : Env) (henv : EnvPlain env) (e : Expr) (hc : coreE e = true
   | cassign op ic x p e =>
     simp only [coreE, Bool.and_eq_true, bne_iff_ne, ne_eq] at hc
     exact cassign_sound henv hc.1 (fun cx g st d st' a b c h' => soundE env henv e hc.2 cx g st d st' a b c h') hW hcx hg h
-  | mcall _ _ _ | fstr _ => simp [coreE] at hc
+  | mcall e m args =>
+    simp only [coreE, Bool.and_eq_true] at hc
+    exact mcall_sound henv (fun cx g st d st' a b c h' => soundE env henv e hc.1 cx g st d st' a b c h')
+      (soundAll env henv args hc.2) hW hcx hg h
+  | fstr _ => simp [coreE] at hc
 termination_by sizeOf e
+
+/-- every expression of a list, one by one (the arguments of a method call are
+    checked against types that are not written types) -/
+theorem soundAll (env : Env) (henv : EnvPlain env) (es : List Expr) (hc : coreL es = true) :
+    ∀ a ∈ es, IH env a := by
+  intro a ha
+  cases es with
+  | nil => cases ha
+  | cons e es =>
+    simp only [coreL, Bool.and_eq_true] at hc
+    rcases List.mem_cons.mp ha with rfl | h'
+    · exact fun cx g st d st' x y z h => soundE env henv _ hc.1 cx g st d st' x y z h
+    · exact soundAll env henv es hc.2 a h'
+termination_by sizeOf es
 
 theorem soundList (env : Env) (henv : EnvPlain env) (es : List Expr) (hc : coreL es = true) :
     ∀ cx g st d st', WTs st.store → WTcx cx → WTg g → inferList env cx g es st = .ok d st' →
